@@ -236,13 +236,93 @@ def short(v):
     return s if len(s) <= 140 else s[:137] + "..."
 
 
+def sweep_vectors():
+    """Representative accepted vectors per class for the enumerated sweeps (from the spec tables)."""
+    out = []
+    for version in spec.VERSIONS:
+        sp = spec.SPECS[version]
+        major = vectors.MAJOR[version]
+        for name, body in vectors.CORNERS[major]:
+            out.append((sp.cls, sp.prefix + body))
+        base = "/".join("%s:%s" % (m, sp.values[m][0]) for m in sp.mandatory)
+        out.append((sp.cls, sp.prefix + base))
+        groups = sorted(sp.groups.items())
+        for gname, metrics in groups:
+            m = metrics[0]
+            defined = [v for v in sp.values[m] if v != sp.nd][-1]
+            out.append((sp.cls, sp.prefix + base + "/%s:%s" % (m, defined)))
+            out.append((sp.cls, sp.prefix + base + "/%s:%s" % (m, sp.nd)))
+    seen = set()
+    uniq = []
+    for x in out:
+        if x not in seen:
+            seen.add(x)
+            uniq.append(x)
+    return uniq
+
+
+def sweep_histories():
+    """Enumerated sub-sweeps (both tiers):
+       pairs  -- for every representative vector, every ordered pair (A, B) of accessor calls: A, B, A, B
+       faults -- for every representative vector, every as_json variant held, every client fault on it,
+                 then every accessor call."""
+    cases = []
+    for cls, s in sweep_vectors():
+        calls = calls_for(cls)
+        for a in range(len(calls)):
+            for b in range(len(calls)):
+                cases.append(("pair", cls, s, a, b, None))
+        json_calls = [i for i, (m, _) in enumerate(calls) if m == "as_json"]
+        for a in json_calls:
+            for how in ("clear", "del", "junk", "junk_all", "add", "update", "popitem"):
+                for b in range(len(calls)):
+                    cases.append(("fault", cls, s, a, b, how))
+    return cases
+
+
+def sweep_ops(case):
+    kind, cls, s, a, b, how = case
+    calls = calls_for(cls)
+    ops = [{"op": "new", "cls": cls, "s": s, "as": "o0"}]
+
+    def call(i, hold=None):
+        op = {"op": "call", "obj": "o0", "m": calls[i][0], "args": calls[i][1]}
+        if hold:
+            op["hold"] = hold
+        return op
+
+    if kind == "pair":
+        ops += [call(a), call(b), call(a), call(b)]
+    else:
+        ops += [call(a, "h0"), {"op": "call", "obj": "o0", "m": "as_json", "args": {}, "hold": "h1"}]
+        m = {"op": "mutate", "held": "h0", "how": how, "i": 3}
+        if how in ("junk", "junk_all", "add"):
+            m["v"] = "JUNK"
+        if how == "add":
+            m["k"] = "baseScore"
+        if how == "update":
+            m["other"] = "h1"
+            ops.append({"op": "mutate", "held": "h1", "how": "junk_all", "v": 0})
+        ops += [m, call(b), call(a)]
+    return ops
+
+
 class HistEngine(object):
     prop = PROP
 
-    def __init__(self, seed=0):
+    def __init__(self, seed=0, mode="random"):
         self.seed = seed
+        self.mode = mode
+        self.cases = sweep_histories() if mode == "sweep" else None
 
     def run_one(self, index):
+        if self.mode == "sweep":
+            case = self.cases[index]
+            trace = {"engine": "hist", "sweep_case": [case[0], case[1], case[3], case[4], case[5]],
+                     "item": {"k": "api", "ops": sweep_ops(case)}}
+            out = self.assess(trace)
+            out["counters"]["sweep.histories." + case[0]] = 1
+            return out
         run_seed = mix(self.seed, PROP, index)
         rng = Rng(run_seed)
         ops = gen_history(rng.fork("workload"))
@@ -298,5 +378,5 @@ class HistEngine(object):
                         yield with_ops(ops[:i] + [o] + ops[i + 1:])
 
 
-def make_engine(seed=0):
-    return HistEngine(seed)
+def make_engine(seed=0, mode="random"):
+    return HistEngine(seed, mode)
